@@ -259,7 +259,7 @@ func (wd *world) checkNames(tr *ftransport, st *fstream, q *reqRec, closing bool
 				e.Violate("revert_orphans_subscription", "%s stream %d: request (seq %d) for type %d lists %v but %q is watched; its watch was registered while a lower-priority server was in use and the name was never subscribed on this server", tr.name(), st.idx, q.seq, q.typ, q.names, n)
 				continue
 			}
-			e.Violate("request_names", "%s stream %d: request (seq %d) for type %d lists %v but %q was watched during the whole life of the stream (since seq %d)", tr.name(), st.idx, q.seq, q.typ, q.names, n, lo)
+			wd.deferViol("request_names", "%s stream %d: request (seq %d) for type %d lists %v but %q was watched during the whole life of the stream (since seq %d)", tr.name(), st.idx, q.seq, q.typ, q.names, n, lo)
 		}
 	}
 }
@@ -294,7 +294,7 @@ func (wd *world) checkConverged(tr *ftransport) {
 	if strings.HasPrefix(lastKind, "unk") {
 		e.Violate("unknown_type_response_wedges_stream", "%s stream %d: after reading a response of a resource type it does not know (%s) the client never called Recv again (quiescent, stream still up)", tr.name(), st.idx, lastKind)
 	} else if strings.HasPrefix(lastKind, "resp") {
-		wd.notReading = append(wd.notReading, fmt.Sprintf("%s stream %d: at quiescence every watcher has finished, but the client never called Recv again after reading %s", tr.name(), st.idx, lastKind))
+		wd.deferViol("reading_resumes", "%s stream %d: at quiescence every watcher has finished, but the client never called Recv again after reading %s", tr.name(), st.idx, lastKind)
 	} else if lastKind == "enter" {
 		e.Probe("reading_checked")
 	}
@@ -324,7 +324,7 @@ func (wd *world) checkConverged(tr *ftransport) {
 					e.Violate("revert_orphans_subscription", "%s stream %d: at quiescence %v of type %d are watched but no request for the type was sent on the live stream; they were registered while a lower-priority server was in use", tr.name(), st.idx, want, t)
 					continue
 				}
-				e.Violate("names_converge", "%s stream %d: at quiescence %v of type %d are watched but no request for the type was sent on the live stream", tr.name(), st.idx, want, t)
+				wd.deferViol("names_converge", "%s stream %d: at quiescence %v of type %d are watched but no request for the type was sent on the live stream", tr.name(), st.idx, want, t)
 			}
 			continue
 		}
@@ -351,12 +351,12 @@ func (wd *world) checkConverged(tr *ftransport) {
 					e.Violate("revert_orphans_subscription", "%s stream %d: at quiescence the last request for type %d (seq %d) lists %v but the watched names are %v; the missing ones were registered while a lower-priority server was in use and were never subscribed on this server", tr.name(), st.idx, t, last.seq, last.names, want)
 					continue
 				}
-				e.Violate("names_converge", "%s stream %d: at quiescence the last request for type %d (seq %d) lists %v but the watched names are %v", tr.name(), st.idx, t, last.seq, last.names, want)
+				wd.deferViol("names_converge", "%s stream %d: at quiescence the last request for type %d (seq %d) lists %v but the watched names are %v", tr.name(), st.idx, t, last.seq, last.names, want)
 			}
 		} else {
 			for _, n := range last.names {
 				if !wd.watchedThroughout(t, n, q, q) {
-					e.Violate("names_converge", "%s stream %d: at quiescence the last request for type %d (seq %d) still lists %q which nobody watches", tr.name(), st.idx, t, last.seq, n)
+					wd.deferViol("names_converge", "%s stream %d: at quiescence the last request for type %d (seq %d) still lists %q which nobody watches", tr.name(), st.idx, t, last.seq, n)
 				}
 			}
 		}
